@@ -65,7 +65,9 @@ type Injected struct {
 
 // Excluded is a Go field the schema does not describe.
 type Excluded struct {
-	Go    string      `json:"go"`
+	Go string `json:"go"`
+	// Oneof is the Go name of the holder when the excluded field is a oneof branch.
+	Oneof string      `json:"oneof,omitempty"`
 	Embed []EmbedStep `json:"embed,omitempty"`
 }
 
